@@ -579,6 +579,13 @@ def cases(rng, tier):
                         h["epk"] = epk
                     out.append({"t": "jose", "api": "alg_family_jwe", "kty": kty, "form": "obj",
                                 "arg": ".".join([b64(json.dumps(h).encode()), b64(b"k" * 24) if "KW" in alg else "", b64(b"0" * 12), b64(b"ct"), b64(b"t" * 16)])})
+    # A*GCMKW: the key-wrapping iv and tag come from the header
+    for extra in ({}, {"iv": 5}, {"iv": "!!!", "tag": "AA"}, {"iv": b64(b"0" * 12)}, {"iv": b64(b"0" * 12), "tag": 5}, {"iv": b64(b"0" * 12), "tag": None},
+                  {"iv": None, "tag": b64(b"t" * 16)}, {"iv": [1], "tag": [2]}, {"iv": b64(b"0" * 3), "tag": b64(b"t" * 16)}, {"iv": b64(b"0" * 12), "tag": b64(b"t" * 3)},
+                  {"iv": "é", "tag": "é"}, {"iv": {"a": 1}, "tag": {"a": 1}}, {"iv": b64(b"0" * 12), "tag": b64(b"t" * 16)}):
+        h = dict({"alg": "A256GCMKW", "enc": "A128GCM"}, **extra)
+        out.append({"t": "jose", "api": "alg_family_jwe", "kty": "oct", "form": "obj",
+                    "arg": ".".join([b64(json.dumps(h).encode()), b64(b"k" * 16), b64(b"0" * 12), b64(b"ct"), b64(b"t" * 16)])})
     for api in ("jwe_compact",):
         for n in (5,):
             good = [b64(b'{"alg":"dir","enc":"A128GCM"}'), "", b64(b"0" * 12), b64(b"ct"), b64(b"t" * 16)]
